@@ -63,6 +63,12 @@ def cases(tier):
         if k in sc['kinds']:
             for n in range(0, sc['series_len'] + 1):
                 yield ('S', (k,), n, 0)
+    # wide single-row frames: directional fills along axis 1 must carry value and run length across several block boundaries
+    for m in ((4, 5) if tier == 'quick' else (4, 5, 6)):
+        for kinds in itertools.product(('float', 'int'), repeat=m):
+            if sum(1 for k in kinds if k == 'float') < 2:
+                continue
+            yield ('W', kinds, 1, 0)
 
 
 def universe(tier):
@@ -331,8 +337,43 @@ def run_series(case, ctx):
     ctx.sample({'series_kind': k, 'n': n, 'masks': 2 ** n}, limit=1)
 
 
+def run_wide(case, ctx):
+    _, kinds, nrows, _ = case
+    ncols = len(kinds)
+    ncap = sum(1 for k in kinds if k in CAPABLE)
+    columns = ['c%d' % j for j in range(ncols)]
+    protos = [np.empty(1, dtype=DTYPE[k]) for k in kinds]
+    nlay = sum(1 for _ in U.layouts(protos))
+    for bits in itertools.product((0, 1), repeat=ncap):
+        grid, arrays = make_cols(kinds, 1, bits)
+        row = [c[0] for c in grid]
+        lays = list(U.layouts(arrays))
+        for sig, blocks in lays:
+            f = U.frame_from_blocks(blocks, 1, index=['r0'], columns=columns)
+            ctx.state(('W', kinds, sig, bits))
+            info = dict(kinds=kinds, layout=sig, mask=bits)
+            for limit in range(0, 4):
+                for name, meth, ref in (('ffill', f.fillna_forward, r_ffill), ('bfill', f.fillna_backward, r_bfill)):
+                    ctx.transition()
+                    if 0 < sum(bits) < ncap:
+                        ctx.nontriv(('W', kinds, bits, name, limit))
+                    try:
+                        res = meth(limit, axis=1)
+                    except Exception as e:
+                        ctx.violation(f'frame.{name}1|wide|raises|{type(e).__name__}', **info, limit=limit, error=repr(e))
+                        continue
+                    exp = ref(row, limit)
+                    got = [c[0] for c in columns_of(res)]
+                    if len(got) != len(exp) or not all(same(g, e) for g, e in zip(got, exp)):
+                        ctx.violation(f'frame.{name}1|wide|cells', **info, limit=limit, got=[norm(x) for x in got], expected=[norm(x) for x in exp])
+    ctx.outcome('W')
+    ctx.sample({'family': 'wide', 'kinds': kinds, 'layouts': nlay, 'masks': 2 ** ncap}, limit=1)
+
+
 def run_case(case, ctx):
     if case[0] == 'F':
         run_frame(case, ctx)
+    elif case[0] == 'W':
+        run_wide(case, ctx)
     else:
         run_series(case, ctx)
